@@ -189,7 +189,7 @@ def transform(row, plan, eid):
     return row
 
 
-def compare(r0, r1, plan, gas):
+def compare(r0, r1, plan, gas, hydraulic_only=False):
     vs = []
     a, b = {}, {}
     for eid, row in r0.items():
@@ -197,7 +197,9 @@ def compare(r0, r1, plan, gas):
             continue
         a[eid] = transform(row, {"flip": set(), "shift": 0.0}, eid)
         b[eid] = transform(r1[eid], plan, eid)
-    diffs = spec.compare_results(a, b, rtol=1e-9, atol=1e-9, gas=gas)
+    # in a hydraulic-only run the temperature columns echo start values of the declared ends; they are no results
+    skip = ("t_outlet_k", "t_from_k", "t_to_k", "t_k") if hydraulic_only else ()
+    diffs = spec.compare_results(a, b, rtol=1e-9, atol=1e-9, gas=gas, skip_cols=skip)
     # series pipes vs sections
     for eid, parts in plan["map"].items():
         o, first, last = r0[eid], r1[parts[0]], r1[parts[-1]]
@@ -205,6 +207,8 @@ def compare(r0, r1, plan, gas):
             continue
         for col, src in (("p_from_bar", first), ("p_to_bar", last), ("mdot_from_kg_per_s", first), ("mdot_to_kg_per_s", last),
                          ("t_from_k", first), ("t_to_k", last), ("t_outlet_k", last if o["mdot_from_kg_per_s"] >= 0 else first)):
+            if hydraulic_only and col.startswith("t_"):
+                continue
             if col in o and col in src:
                 va, vb = o[col], src[col]
                 if np.isnan(va) and np.isnan(vb):
@@ -313,7 +317,7 @@ def run_case(case):
         vs.append(viol("verdict_differs", "%s at %s: original %s, rewritten %s; base %s" % (rw, case["sites"], st0, st1,
                        {k: v for k, v in case["base"].items() if k != "point"}), rewrite=rw, gas=gas))
     elif r0 is not None:
-        diffs = compare(r0, r1, plan, gas)
+        diffs = compare(r0, r1, plan, gas, hydraulic_only=opts.get("mode", "hydraulics") == "hydraulics")
         if diffs:
             d = diffs[0]
             cols = sorted(set(x[1] for x in diffs))
